@@ -104,7 +104,7 @@ Definition is_v1_p2tr_p (s : bytes) := andp (lenb s 34) (andp (at_eq s 0 OP_PUSH
 Definition is_v0_p2wpkh_p (s : bytes) := andp (lenb s 22) (andp (at_eq s 0 OP_PUSHBYTES_0) (at_eq s 1 OP_PUSHBYTES_20)).
 Definition is_v1plus_p2witprog_p (s : bytes) :=
   andp (Val (1 <? length s)%nat) (andp (do b <- idx s 1; Val (lenN s =? b2n b + 2))
-  (andp (at_ge s 0 OP_PUSHNUM_1) (andp (at_le s 0 OP_PUSHNUM_16) (at_le s 1 OP_PUSHBYTES_40)))).
+  (andp (at_ge s 0 OP_PUSHNUM_1) (andp (at_le s 0 OP_PUSHNUM_16) (andp (at_ge s 1 OP_PUSHBYTES_2) (at_le s 1 OP_PUSHBYTES_40))))).
 Definition is_op_return_p (s : bytes) := andp (Val (negb (Script.is_empty s))) (at_eq s 0 OP_RETURN).
 
 (* ================================================================================================ src/blech32/decode.rs *)
@@ -163,23 +163,21 @@ Definition validate_segwit_p (h d : bytes) : hres (bytes * N * bytes) :=
     hbind (of_outcome (expect (from_char c0))) (fun ver =>
     hbind (of_outcome (slice_from d 1)) (fun d' =>
     hbind (validate_padding_p d') (fun _ => hbind (validate_wpl_p ver d') (fun _ => HOk (h, ver, d')))))) end.
-(* SegwitHrpstring::new has the is_empty test before `unchecked.data[0]`; new_bech32 does not (F1) *)
-Definition segwit_front (guarded : bool) (s : bytes) : hres (bytes * bytes * N) :=
+(* SegwitHrpstring::new and (since a4bc64e, which repaired F1) new_bech32 both have the is_empty test before `unchecked.data[0]` *)
+Definition segwit_front (s : bytes) : hres (bytes * bytes * N) :=
   hbind (unchecked_new_p s) (fun '(h, d) =>
-  if guarded && Script.is_empty d then HErr ENoData else
+  if Script.is_empty d then HErr ENoData else
   hbind (of_outcome (idx d 0)) (fun c0 =>
   hbind (of_outcome (expect (from_char c0))) (fun ver =>
   if BLECH_MAX_WITNESS_VERSION <? ver then HErr EWitVer else HOk (h, d, ver)))).
 Definition segwit_new_p (s : bytes) : hres (bytes * N * bytes) :=
-  hbind (segwit_front true s) (fun '(h, d, ver) =>
+  hbind (segwit_front s) (fun '(h, d, ver) =>
   let c := if ver =? 0 then blech_code BLECH_V0_CODE else blech_code BLECH_V1PLUS_CODE in
   hbind (validate_checksum_p c h d) (fun _ => hbind (remove_checksum_p c d) (fun d' => validate_segwit_p h d'))).
 Definition segwit_new_bech32_p (s : bytes) : hres (bytes * N * bytes) :=
-  hbind (segwit_front false s) (fun '(h, d, ver) =>
+  hbind (segwit_front s) (fun '(h, d, ver) =>
   let c := blech32 in
   hbind (validate_checksum_p c h d) (fun _ => hbind (remove_checksum_p c d) (fun d' => validate_segwit_p h d'))).
-(* the input class of F1: the string parses as an unchecked hrpstring with an empty data part *)
-Definition known_F1 (s : bytes) : bool := match unchecked_new_p s with HOk (_, []) => true | _ => false end.
 (* byte_iter().collect() *)
 Definition data_bytes (d : bytes) : bytes := match syms_of d with Some syms => fes_to_bytes syms | None => [] end.
 
@@ -301,11 +299,10 @@ Definition merge_xpub (f2 : bytes) (d2 : list N) (f1 : bytes) (d1 : list N) : ou
   do c2 <- (if (length d1 <? length d2)%nat
             then do k <- usub (length d2) (length d1); do t <- slice_from d2 k; Val (eqp d1 t) else Val false);
   if (c2 : bool) then Val XKeep else
-  do k <- usub (length d1) (length d2);                     (* `derivation1.len() - derivation2.len()` with no length guard: F2 *)
-  do t <- slice_from d1 k;
-  if eqp d2 t then Val XReplace else Fail (E "conflict").
-Definition is_suffix (a b : list N) : bool := (length a <=? length b)%nat && (if list_eq_dec N.eq_dec a (skipn (length b - length a) b) then true else false).
-Definition known_F2 (d2 d1 : list N) : bool := (length d1 <? length d2)%nat && negb (is_suffix d1 d2).
+  (* since 4b01389 (which repaired F2): `derivation2.len() < derivation1.len() && derivation2[..] == derivation1[len1 - len2..]` *)
+  do c3 <- (if (length d2 <? length d1)%nat
+            then do k <- usub (length d1) (length d2); do t <- slice_from d1 k; Val (eqp d2 t) else Val false);
+  if (c3 : bool) then Val XReplace else Fail (E "conflict").
 
 (* ================================================================================================ src/blind.rs: Transaction::blind, output selection *)
 (* per output: is_fee, nonce confidential, script is an address template *)
@@ -323,10 +320,9 @@ Fixpoint blind_loop (outs : list bout) (i : nat) (num_to_blind num_blinded : nat
 Definition blind_select (outs : list bout) : outcome (list nat) :=
   let n := length (filter to_blind outs) in
   do '(last, blinded) <- blind_loop outs 0 n 0 None [];
-  do li <- expect last;                                       (* `expect("Internal output calculation error")`: F12 *)
+  do li <- (match last with Some i => Val i | None => Fail (E "toofew") end);   (* since 8d5600e (F12): `ok_or(BlindError::TooFewBlindingOutputs)?` *)
   do _ <- idx outs li;                                         (* `&self.output[last_index]` *)
   Val (blinded ++ [li]).
-Definition known_F12 (outs : list bout) : bool := negb (existsb to_blind outs).
 
 (* ================================================================================================ src/pset/mod.rs: locktime *)
 Inductive ltk := Unconstrained | Minimum (x : N) | Disallowed.
@@ -347,8 +343,8 @@ Definition lt_step (st : ltk * ltk) (inp : option N * option N) : ltk * ltk :=
 Definition locktime_p (fallback : option N) (inputs : list (option N * option N)) : outcome N :=
   match fold_left lt_step inputs (Unconstrained, Unconstrained) with
   | (Unconstrained, Unconstrained) => Val (match fallback with Some f => f | None => 0 end)
+  | (_, Minimum x) => Val x                   (* since d70d58d the height arm comes first (BIP370: height when both kinds are possible) *)
   | (Minimum x, _) => Val x
-  | (_, Minimum x) => Val x
   | (Disallowed, Disallowed) => Fail (E "conflict")
   | (Unconstrained, Disallowed) => Panic WUnreachable
   | (Disallowed, Unconstrained) => Panic WUnreachable end.
@@ -433,11 +429,13 @@ Definition known_F17 (outs : list (N * N)) (asset : N) : bool := 2 ^ 64 <=? fold
 
 (* ================================================================================================ src/confidential.rs, src/pset/serialize.rs: commitments from slices *)
 (* Value::from_commitment / Asset::from_commitment / pset Deserialize for PedersenCommitment and Generator hand the slice to
-   secp256k1-zkp 0.11's `from_slice`, which passes `bytes.as_ptr()` to a C parser that reads 33 bytes — no length test
-   anywhere on the way (F18).  `pt_ok` is the parser's verdict on 33 bytes. *)
-Definition from_commitment_p (pt_ok : bytes -> bool) (sl : bytes) : outcome bool :=
+   secp256k1-zkp 0.11's `from_slice`, which passes `bytes.as_ptr()` to a C parser that reads 33 bytes without looking at the length.
+   Since 838e50c (which repaired F18) all four test `bytes.len() != 33` first; `read33` is the unguarded hand-over, kept as a
+   partial operation so that the guard is what the theorem rests on.  `pt_ok` is the parser's verdict on 33 bytes. *)
+Definition read33 (pt_ok : bytes -> bool) (sl : bytes) : outcome bool :=
   if Nat.eqb (length sl) 33 then Val (pt_ok sl) else Panic WOobRead.
-Definition known_F18 (sl : bytes) : bool := negb (Nat.eqb (length sl) 33).
+Definition from_commitment_p (pt_ok : bytes -> bool) (sl : bytes) : outcome bool :=
+  if negb (Nat.eqb (length sl) 33) then Fail (E "length") else read33 pt_ok sl.
 
 (* ================================================================================================ src/sighash.rs: taproot index handling *)
 Inductive prevouts := POne (i : nat) | PAll (n : nat).
@@ -449,7 +447,7 @@ Definition tap_index (nin nout idx_ : nat) (pv : prevouts) (ty : N) : outcome un
   let '(sh, acp) := split_acp ty in
   let get_all_fails := match pv with POne _ => true | PAll _ => false end in
   if negb acp && get_all_fails then Fail (E "prevoutkind") else
-  if negb (sh =? 2) && negb (sh =? 3) && get_all_fails then Fail (E "prevoutkind") else
+  (* since 539d5ee the output-witness hash lives in the common cache: no second `get_all()` for hash types other than NONE / SINGLE *)
   if acp && negb (idx_ <? nin)%nat then Fail (E "index") else
   if acp && match pv with POne i => negb (Nat.eqb idx_ i) | PAll n => negb (idx_ <? n)%nat end then Fail (E "prevoutindex") else
   if (sh =? 3) && negb (idx_ <? nout)%nat then Fail (E "single") else Val tt.
@@ -457,8 +455,8 @@ Definition tap_index (nin nout idx_ : nat) (pv : prevouts) (ty : N) : outcome un
 (* ================================================================================================ TaprootBuilder as the API and serde see it *)
 Definition triv (_ : bytes) : bytes := [].
 Definition api_builder (items : list item) : Taproot.res berr br := Taproot.run triv triv items [].
+(* TaprootBuilder::finalize is Model/Taproot.finalize, which since c723f02 (F16 repaired) returns IncompleteTree on a trailing empty slot *)
 Definition finalize_p (b : br) : Taproot.outcome spendinfo := Taproot.finalize triv (fun _ => true) (fun _ _ => Some ([], false)) b [].
-Definition known_F16 (b : br) : bool := match b with [None] => true | _ => false end.
 
 (* ================================================================================================ src/pset/mod.rs: input / output count caps *)
 (* `if inputs_len > 10_000 { return Err(TooLargePset) }` then `Vec::with_capacity(inputs_len)`: count * size_of::<Input>() bytes are
